@@ -86,3 +86,209 @@ Example C03_example :
   xdiv (Fin 0) (Fin 0) = NaN /\
   (qsum [3; 1; 0] == 4)%Q.
 Proof. vm_compute. repeat split; reflexivity. Qed.
+
+(* ==================================================================================== *)
+(** * END TO END: the property against the respondents (Proofs/ComposeBase.v, ComposeProportions.v)
+
+   Everything above is a LOCAL step (any count block over any base block).  Below, the whole
+   pipeline runs on one survey: [s_row_props S tv vr kr mr vc kc mc k rsubs csubs dn rd cd] is
+   Model/Proportions.v::row_proportions applied to the count and row-base blocks that
+   Model/CubeCounts.v extracts from [tabulate S] for partition k ([t_counts], [t_rb] = the fields
+   so_counts / so_row_bases of slice_counts; C01 / C02), with ANY inserted subtotals and flags;
+   rows / columns categorical (KCat: also datetime / text / binned) or multiple response (KMr),
+   2-D (tv = None) or a partition of a 3-D cube.  [C03_survey_numbers] spells out the four
+   respondent-level numbers.  NOTHING is assumed about counts and bases: 0 <= count <= base is
+   derived from the survey (the counted respondents are a subset of the base's). *)
+From CC Require Import Spec.Survey Model.CubeCounts Proofs.CubeCountsProofs
+     Proofs.ComposeBase Proofs.ComposeProportions.
+
+Theorem C03_survey_numbers S tv k vr kr mr vc kc mc i j :
+  w_cell tv k vr kr mr vc kc mc S i j
+    = wsum S (fun r => pop_of tv k r && in_el kr mr (ans r vr) i && in_el kc mc (ans r vc) j) /\
+  w_rowbase tv k vr kr mr vc kc mc S i j
+    = wsum S (fun r => pop_of tv k r && in_el kr mr (ans r vr) i && ok_el kc mc (ans r vc) j) /\
+  w_colbase tv k vr kr mr vc kc mc S i j
+    = wsum S (fun r => pop_of tv k r && ok_el kr mr (ans r vr) i && in_el kc mc (ans r vc) j) /\
+  w_tabbase tv k vr kr mr vc kc mc S i j
+    = wsum S (fun r => pop_of tv k r && ok_el kr mr (ans r vr) i && ok_el kc mc (ans r vc) j).
+Proof. exact (conj eq_refl (conj eq_refl (conj eq_refl eq_refl))). Qed.
+Print Assumptions C03_survey_numbers.
+
+(* the blocks the proportions are computed from ARE the respondent counts (C01 / C02 restated on
+   the matrices) *)
+Theorem C03_survey_blocks S tv vr kr mr vc kc mc k i j :
+  t_ok tv -> cat_or_mr kr -> cat_or_mr kc -> k < t_n tv -> i < nval mr -> j < nval mc ->
+  mnth (t_counts S tv vr kr mr vc kc mc k) i j =x= Fin (w_cell tv k vr kr mr vc kc mc S i j) /\
+  mnth (t_rb S tv vr kr mr vc kc mc k) i j =x= Fin (w_rowbase tv k vr kr mr vc kc mc S i j) /\
+  mnth (t_cb S tv vr kr mr vc kc mc k) i j =x= Fin (w_colbase tv k vr kr mr vc kc mc S i j) /\
+  mnth (t_tb S tv vr kr mr vc kc mc k) i j =x= Fin (w_tabbase tv k vr kr mr vc kc mc S i j).
+Proof.
+  exact (fun Ht Hr Hc Hk Hi Hj =>
+    conj (t_counts_cell S tv vr kr mr vc kc mc k Ht Hr Hc Hk i j Hi Hj)
+   (conj (t_rb_cell S tv vr kr mr vc kc mc k Ht Hr Hc Hk i j Hi Hj)
+   (conj (t_cb_cell S tv vr kr mr vc kc mc k Ht Hr Hc Hk i j Hi Hj)
+         (t_tb_cell S tv vr kr mr vc kc mc k Ht Hr Hc Hk i j Hi Hj)))).
+Qed.
+Print Assumptions C03_survey_blocks.
+
+(* derived, not assumed: 0 <= count <= row / column base <= table base *)
+Theorem C03_survey_count_le_base S tv k vr kr mr vc kc mc i j : wf_survey S ->
+  (0 <= w_cell tv k vr kr mr vc kc mc S i j)%Q /\
+  (w_cell tv k vr kr mr vc kc mc S i j <= w_rowbase tv k vr kr mr vc kc mc S i j)%Q /\
+  (w_cell tv k vr kr mr vc kc mc S i j <= w_colbase tv k vr kr mr vc kc mc S i j)%Q /\
+  (w_rowbase tv k vr kr mr vc kc mc S i j <= w_tabbase tv k vr kr mr vc kc mc S i j)%Q /\
+  (w_colbase tv k vr kr mr vc kc mc S i j <= w_tabbase tv k vr kr mr vc kc mc S i j)%Q.
+Proof.
+  exact (fun Hwf =>
+    conj (w_cell_nonneg S tv k vr kr mr vc kc mc Hwf i j)
+   (conj (w_cell_le_rowbase S tv k vr kr mr vc kc mc Hwf i j)
+   (conj (w_cell_le_colbase S tv k vr kr mr vc kc mc Hwf i j)
+   (conj (w_rowbase_le_tabbase S tv k vr kr mr vc kc mc Hwf i j)
+         (w_colbase_le_tabbase S tv k vr kr mr vc kc mc Hwf i j))))).
+Qed.
+Print Assumptions C03_survey_count_le_base.
+
+(* prop_def + prop_bounds + prop_nan_iff, ROW proportion of base cell (i, j): it is
+   w(row i and column j) / w(row i and eligible for column j); NaN exactly when that base is 0;
+   otherwise a number in [0, 1]; never infinite *)
+Theorem C03_survey_row_proportion S tv vr kr mr vc kc mc k rsubs csubs dn rd cd i j :
+  t_ok tv -> cat_or_mr kr -> cat_or_mr kc -> k < t_n tv -> wf_survey S ->
+  i < nval mr -> j < nval mc ->
+  match mnth (b_base (s_row_props S tv vr kr mr vc kc mc k rsubs csubs dn rd cd)) i j with
+  | NaN => (w_rowbase tv k vr kr mr vc kc mc S i j == 0)%Q
+  | Fin p => ~ (w_rowbase tv k vr kr mr vc kc mc S i j == 0)%Q /\
+             (p == w_cell tv k vr kr mr vc kc mc S i j / w_rowbase tv k vr kr mr vc kc mc S i j)%Q /\
+             (0 <= p)%Q /\ (p <= 1)%Q
+  | Inf _ => False
+  end.
+Proof.
+  exact (fun Ht Hr Hc Hk Hwf =>
+           row_proportion_cases S tv vr kr mr vc kc mc k rsubs csubs dn rd cd Ht Hr Hc Hk Hwf i j).
+Qed.
+Print Assumptions C03_survey_row_proportion.
+
+Theorem C03_survey_column_proportion S tv vr kr mr vc kc mc k rsubs csubs dn rd cd i j :
+  t_ok tv -> cat_or_mr kr -> cat_or_mr kc -> k < t_n tv -> wf_survey S ->
+  i < nval mr -> j < nval mc ->
+  match mnth (b_base (s_col_props S tv vr kr mr vc kc mc k rsubs csubs dn rd cd)) i j with
+  | NaN => (w_colbase tv k vr kr mr vc kc mc S i j == 0)%Q
+  | Fin p => ~ (w_colbase tv k vr kr mr vc kc mc S i j == 0)%Q /\
+             (p == w_cell tv k vr kr mr vc kc mc S i j / w_colbase tv k vr kr mr vc kc mc S i j)%Q /\
+             (0 <= p)%Q /\ (p <= 1)%Q
+  | Inf _ => False
+  end.
+Proof.
+  exact (fun Ht Hr Hc Hk Hwf =>
+           column_proportion_cases S tv vr kr mr vc kc mc k rsubs csubs dn rd cd Ht Hr Hc Hk Hwf i j).
+Qed.
+Print Assumptions C03_survey_column_proportion.
+
+Theorem C03_survey_table_proportion S tv vr kr mr vc kc mc k rsubs csubs dn i j :
+  t_ok tv -> cat_or_mr kr -> cat_or_mr kc -> k < t_n tv -> wf_survey S ->
+  i < nval mr -> j < nval mc ->
+  match mnth (b_base (s_tab_props S tv vr kr mr vc kc mc k rsubs csubs dn)) i j with
+  | NaN => (w_tabbase tv k vr kr mr vc kc mc S i j == 0)%Q
+  | Fin p => ~ (w_tabbase tv k vr kr mr vc kc mc S i j == 0)%Q /\
+             (p == w_cell tv k vr kr mr vc kc mc S i j / w_tabbase tv k vr kr mr vc kc mc S i j)%Q /\
+             (0 <= p)%Q /\ (p <= 1)%Q
+  | Inf _ => False
+  end.
+Proof.
+  exact (fun Ht Hr Hc Hk Hwf =>
+           table_proportion_cases S tv vr kr mr vc kc mc k rsubs csubs dn Ht Hr Hc Hk Hwf i j).
+Qed.
+Print Assumptions C03_survey_table_proportion.
+
+(* the NaN clause on its own *)
+Theorem C03_survey_nan_iff_empty_base S tv vr kr mr vc kc mc k rsubs csubs dn rd cd i j :
+  t_ok tv -> cat_or_mr kr -> cat_or_mr kc -> k < t_n tv -> wf_survey S ->
+  i < nval mr -> j < nval mc ->
+  (mnth (b_base (s_row_props S tv vr kr mr vc kc mc k rsubs csubs dn rd cd)) i j = NaN
+     <-> (w_rowbase tv k vr kr mr vc kc mc S i j == 0)%Q) /\
+  (mnth (b_base (s_col_props S tv vr kr mr vc kc mc k rsubs csubs dn rd cd)) i j = NaN
+     <-> (w_colbase tv k vr kr mr vc kc mc S i j == 0)%Q) /\
+  (mnth (b_base (s_tab_props S tv vr kr mr vc kc mc k rsubs csubs dn)) i j = NaN
+     <-> (w_tabbase tv k vr kr mr vc kc mc S i j == 0)%Q).
+Proof.
+  exact (fun Ht Hr Hc Hk Hwf Hi Hj =>
+    conj (row_proportion_nan_iff S tv vr kr mr vc kc mc k rsubs csubs dn rd cd Ht Hr Hc Hk Hwf i j Hi Hj)
+   (conj (column_proportion_nan_iff S tv vr kr mr vc kc mc k rsubs csubs dn rd cd Ht Hr Hc Hk Hwf i j Hi Hj)
+         (table_proportion_nan_iff S tv vr kr mr vc kc mc k rsubs csubs dn Ht Hr Hc Hk Hwf i j Hi Hj))).
+Qed.
+Print Assumptions C03_survey_nan_iff_empty_base.
+
+(* prop_sum_one.  COLUMNS categorical: row i of the model's row-proportion matrix (all valid
+   columns) adds up to 1 whenever somebody is in row i with a valid column answer ... *)
+Theorem C03_survey_row_proportions_sum_to_one S tv vr kr mr vc mc k rsubs csubs dn rd cd i :
+  t_ok tv -> cat_or_mr kr -> k < t_n tv -> i < nval mr ->
+  ~ (w_rowbase tv k vr kr mr vc KCat mc S i 0 == 0)%Q ->
+  xsum (nth i (b_base (s_row_props S tv vr kr mr vc KCat mc k rsubs csubs dn rd cd)) []) =x= Fin 1.
+Proof. exact (fun Ht Hr Hk => row_proportions_sum_one S tv vr kr mr vc mc k rsubs csubs dn rd cd Ht Hr Hk i). Qed.
+Print Assumptions C03_survey_row_proportions_sum_to_one.
+
+(* ... ROWS categorical: column j of the column proportions over all valid rows ... *)
+Theorem C03_survey_column_proportions_sum_to_one S tv vr mr vc kc mc k rsubs csubs dn rd cd j :
+  t_ok tv -> cat_or_mr kc -> k < t_n tv -> j < nval mc ->
+  ~ (w_colbase tv k vr KCat mr vc kc mc S 0 j == 0)%Q ->
+  xsum (tab (nval mr) (fun i =>
+          mnth (b_base (s_col_props S tv vr KCat mr vc kc mc k rsubs csubs dn rd cd)) i j)) =x= Fin 1.
+Proof. exact (fun Ht Hc Hk => column_proportions_sum_one S tv vr mr vc kc mc k rsubs csubs dn rd cd Ht Hc Hk j). Qed.
+Print Assumptions C03_survey_column_proportions_sum_to_one.
+
+(* ... both categorical: all table proportions *)
+Theorem C03_survey_table_proportions_sum_to_one S tv vr vc mr mc k rsubs csubs dn :
+  t_ok tv -> k < t_n tv ->
+  ~ (w_tabbase tv k vr KCat mr vc KCat mc S 0 0 == 0)%Q ->
+  xsum (map xsum (b_base (s_tab_props S tv vr KCat mr vc KCat mc k rsubs csubs dn))) =x= Fin 1.
+Proof. exact (table_proportions_sum_one S tv vr vc mr mc k rsubs csubs dn). Qed.
+Print Assumptions C03_survey_table_proportions_sum_to_one.
+
+(* the sums behind it: along a categorical dimension the cells of all valid elements make up
+   the base (a corollary of C01 / C02) *)
+Theorem C03_survey_cells_sum_to_base S tv k vr vc mr mc :
+  (forall kr i j0, (qsumn (nval mc) (fun j => w_cell tv k vr kr mr vc KCat mc S i j)
+                    == w_rowbase tv k vr kr mr vc KCat mc S i j0)%Q) /\
+  (forall kc i0 j, (qsumn (nval mr) (fun i => w_cell tv k vr KCat mr vc kc mc S i j)
+                    == w_colbase tv k vr KCat mr vc kc mc S i0 j)%Q) /\
+  (forall i0 j0, (qsumn (nval mr) (fun i => qsumn (nval mc) (fun j => w_cell tv k vr KCat mr vc KCat mc S i j))
+                  == w_tabbase tv k vr KCat mr vc KCat mc S i0 j0)%Q).
+Proof.
+  exact (conj (fun kr => cells_sum_to_rowbase S tv k vr kr mr vc mc)
+        (conj (fun kc => cells_sum_to_colbase S tv k vr mr vc kc mc)
+              (cells_sum_to_tabbase S tv k vr vc mr mc))).
+Qed.
+Print Assumptions C03_survey_cells_sum_to_base.
+
+(* Non-vacuity.  Five respondents, rational weights; rows categorical with a MISSING category in
+   the middle of the payload and a valid category nobody chose (row 2: empty base -> NaN);
+   columns multiple response with per-item missingness.  Model value computed from the tabulated
+   blocks vs the respondent-level ratio; a categorical x categorical table for the sums. *)
+Example C03_survey_example :
+  let S := [ mkResp [ACat 0; AMr [Sel; Oth]; ACat 0] (3 # 2);
+             mkResp [ACat 2; AMr [Sel; Mis]; ACat 1] 2;
+             mkResp [ACat 1; AMr [Sel; Sel]; ACat 0] 5;        (* missing row category *)
+             mkResp [ACat 2; AMr [Oth; Sel]; ACat 1] (1 # 4);
+             mkResp [ACat 0; AMr [Oth; Oth]; ACat 2] 1 ] in    (* third answer: missing category *)
+  let mr := [false; true; false; false] in
+  let mc := [false; false] in
+  let m3 := [false; false; true] in
+  t_ok None /\ cat_or_mr KCat /\ cat_or_mr KMr /\ 0 < t_n None /\ wf_survey S /\
+  nval mr = 3 /\ nval mc = 2 /\ nval m3 = 2 /\
+  (* row proportions, CAT x MR: row 1 (category 2), item 0: 2 / (2 + 1/4); item 1: (1/4)/(1/4) *)
+  map (map xred) (b_base (s_row_props S None 0 KCat mr 1 KMr mc 0 [] [] false false false))
+    = [[Fin (3 # 5); Fin 0]; [Fin (8 # 9); Fin 1]; [NaN; NaN]] /\
+  (w_cell None 0 0 KCat mr 1 KMr mc S 1 0 / w_rowbase None 0 0 KCat mr 1 KMr mc S 1 0 == 8 # 9)%Q /\
+  (w_rowbase None 0 0 KCat mr 1 KMr mc S 2 0 == 0)%Q /\
+  ~ (w_rowbase None 0 0 KCat mr 1 KMr mc S 1 0 == 0)%Q /\
+  (* CAT x CAT (variable 2 as columns, its third category missing): rows sum to 1 *)
+  map (map xred) (b_base (s_row_props S None 0 KCat mr 2 KCat m3 0 [] [] false false false))
+    = [[Fin 1; Fin 0]; [Fin 0; Fin 1]; [NaN; NaN]] /\
+  ~ (w_rowbase None 0 0 KCat mr 2 KCat m3 S 0 0 == 0)%Q /\
+  ~ (w_tabbase None 0 0 KCat mr 2 KCat m3 S 0 0 == 0)%Q /\
+  map (map xred) (b_base (s_tab_props S None 0 KCat mr 2 KCat m3 0 [] [] false))
+    = [[Fin (2 # 5); Fin 0]; [Fin 0; Fin (3 # 5)]; [Fin 0; Fin 0]].
+Proof.
+  cbv zeta. repeat split; try (left; reflexivity); try (right; reflexivity); try lia;
+    try (repeat constructor; discriminate); try (vm_compute; reflexivity);
+    try (vm_compute; discriminate).
+Qed.
